@@ -31,12 +31,15 @@ def exec_SF(t):
                 return ['INPLACE_RETURNED_OPERAND']
         else:
             cnt = n
-            if mode != 'expand' and (nx + n + cs[0]) % 2:
+            if (nx + n + cs[0]) % 2:
                 # the count as the NumPy integer it is when it comes out of a table of per-stage shifts (narrowest type that holds it)
                 cnt = (np.int8 if n < 128 else np.int16)(n) if (nx + cs[-1]) % 2 else (np.uint8 if n < 256 else np.uint16)(n)
             z = (x << cnt) if d == 'l' else (x >> cnt)
         unchanged = (fmt_of(x), codes_of(x)) == before
         st = z.status
+        # the value of the result is read the same through every reader (the stored reading `real` included: D68)
+        if getattr(z, 'real', None) is not None and not np.array_equal(np.asarray(z.real), np.asarray(z.get_val())):
+            return ['STALE_READING']
     except Exception as e:
         return [exc_token(e)]
     return fmt_of(z).split() + [tok_list([str(c) for c in codes_of(z)]), tok_bool(st['overflow']), tok_bool(st['underflow']), tok_bool(unchanged)]
